@@ -187,6 +187,18 @@ func c16History(r *kit.Result, rng *kit.Rand, id string, nsteps int, prologue in
 		w.check("prologue")
 		w.readdIssuer(1)
 		w.check("prologue")
+		// the same once more with CRL building disabled while the issuer returns: OCSP is then the
+		// only channel and has to find the issuer without help from a CRL build
+		b := w.issue(1, false)
+		w.revoke(b, "serial")
+		w.setCfg(c16Cfg{Disable: true})
+		w.removeIssuer(1)
+		w.tidy(false, false, true)
+		w.check("prologue")
+		w.readdIssuer(1)
+		w.check("prologue")
+		w.setCfg(c16Cfg{})
+		w.check("prologue")
 	}
 	for s := 0; s < nsteps && !w.broken; s++ {
 		w.randomStep(rng, kinds)
